@@ -100,7 +100,30 @@ fn main() {
         let code = rep.finish(Coverage::default());
         std::process::exit(code);
     }
-    let cov = match prop.as_str() {
+    // safety net: a panic of the library that escapes the oracles' own panic capture must not kill the run without a verdict
+    let outcome = util::catch(|| run_check(&prop, &rep));
+    let cov = match outcome {
+        Ok(cov) => cov,
+        Err(msg) => {
+            let class = util::msg_class(&msg);
+            rep.fail(
+                &format!("panic-outside-the-oracles|{}", class),
+                0,
+                || format!("the library panicked in a call the check makes without expecting a failure (exploration aborted at that point): {}", msg),
+                || serde_json::json!({"panic": msg}),
+            );
+            let mut cov = Coverage::default();
+            cov.rule = "exploration aborted by a panic, see the violation".into();
+            cov
+        }
+    };
+    let code = rep.finish(cov);
+    std::process::exit(code);
+}
+
+fn run_check(prop: &str, rep: &Reporter) -> Coverage {
+    let rep = rep;
+    match prop {
         "C13" => c13::run(&rep),
         "C20" => c20::run(&rep),
         "C19" => c19::run(&rep),
@@ -122,7 +145,5 @@ fn main() {
         "C16" => c16::run(&rep),
         "C17" => c17::run(&rep),
         _ => usage(),
-    };
-    let code = rep.finish(cov);
-    std::process::exit(code);
+    }
 }
